@@ -581,6 +581,32 @@ func (g *copyGen) holder(t *Type) string {
 	return name
 }
 
+// topMutation is a fixed mutation applied directly to expression e of type t
+// (struct: first setter, array: append, dictionary: insert).
+func (g *copyGen) topMutation(e Expr, t *Type, seed int64) Stmt {
+	switch t.K {
+	case KArr:
+		return ExprStmt{E: Invoke{X: e, Name: "append", Args: []Arg{{E: call(g.elFn(t.Elem), I(seed))}}}}
+	case KDict:
+		return ExprStmt{E: Invoke{X: e, Name: "insert", Args: []Arg{{Label: "key", E: g.keyLit(t.Key, seed)}, {E: call(g.elFn(t.Elem), I(seed))}}}}
+	case KComp:
+		ft := g.prog.Comp(t.Name).Fields[0].T
+		return ExprStmt{E: Invoke{X: e, Name: "setF0", Args: []Arg{{E: call(g.elFn(ft), I(seed))}}}}
+	}
+	panic("vir: topMutation: unsupported type " + t.String())
+}
+
+// mutateTemp mutates the value of expression e (a call / load / dereference
+// result) in place without binding it to a variable first: the mutation must be
+// lost, because the expression yielded a copy.
+func (g *copyGen) mutateTemp(e Expr, t *Type) {
+	if g.draw(3, "mutate-temp") == 0 {
+		return
+	}
+	g.feat("mutate-temporary")
+	g.emit(g.topMutation(e, t, 888))
+}
+
 // GenCopy generates a copy-semantics case.
 func GenCopy(t *rapid.T) *CopyCase {
 	g := newCopyGen(t)
@@ -614,19 +640,16 @@ func GenCopy(t *rapid.T) *CopyCase {
 		g.emit(Assign{Target: V("b"), Value: V("a")})
 	case "argument-return":
 		g.addFn(&FuncDecl{Name: "pass", Params: []Param{{Label: "_", Name: "v", T: T}}, Ret: T, Body: []Stmt{Return{E: V("v")}}})
-		g.emit(Let{Name: "b", IsVar: true, Init: call("pass", V("a"))})
+		g.addFn(&FuncDecl{Name: "pass2", Params: []Param{{Label: "_", Name: "n", T: Int}, {Name: "v", T: T}}, Ret: T, Body: []Stmt{Return{E: V("v")}}})
+		pass := call("pass", V("a"))
+		if g.draw(2, "second-argument") == 0 {
+			pass = Call{Fn: "pass2", Args: []Arg{{E: I(1)}, {Label: "v", E: V("a")}}}
+		}
+		g.emit(Let{Name: "b", IsVar: true, Init: pass})
+		g.mutateTemp(pass, T)
 	case "argument-mutated":
 		// the callee mutates its parameter: the caller's value must not change
-		var mut Stmt
-		switch T.K {
-		case KArr:
-			mut = ExprStmt{E: Invoke{X: V("v"), Name: "append", Args: []Arg{{E: call(g.elFn(T.Elem), I(777))}}}}
-		case KDict:
-			mut = ExprStmt{E: Invoke{X: V("v"), Name: "insert", Args: []Arg{{Label: "key", E: g.keyLit(T.Key, 777)}, {E: call(g.elFn(T.Elem), I(777))}}}}
-		default:
-			ft := g.prog.Comp(T.Name).Fields[0].T
-			mut = ExprStmt{E: Invoke{X: V("v"), Name: "setF0", Args: []Arg{{E: call(g.elFn(ft), I(777))}}}}
-		}
+		mut := g.topMutation(V("v"), T, 777)
 		g.addFn(&FuncDecl{Name: "take", Params: []Param{{Label: "_", Name: "v", T: T}}, Ret: T, Body: []Stmt{mut, Return{E: V("v")}}})
 		g.emit(Let{Name: "b", IsVar: true, Init: call("take", V("a"))})
 	case "field-store":
@@ -642,16 +665,25 @@ func GenCopy(t *rapid.T) *CopyCase {
 		h := g.holder(T)
 		g.emit(Let{Name: "h", IsVar: true, Init: New{Name: h, Args: []Arg{{Label: "f", E: V("a")}}}})
 		g.emit(Let{Name: "b", IsVar: true, Init: Invoke{X: V("h"), Name: "getF"}})
+		g.mutateTemp(Invoke{X: V("h"), Name: "getF"}, T)
 		// h.f is a third copy; mutate it a little as well
 		third := &side{name: "h", roots: []place{{e: Member{X: V("h"), Name: "f"}, t: T, mode: modeDirect, pure: true}}, muts: new(int)}
 		g.mutate(third)
 	case "array-insert":
 		g.emit(Let{Name: "box", T: Arr(T), IsVar: true, Init: ArrLit{T: Arr(T)}})
-		g.emit(ExprStmt{E: Invoke{X: V("box"), Name: "append", Args: []Arg{{E: V("a")}}}})
+		if g.draw(2, "insert-at") == 0 {
+			g.emit(ExprStmt{E: Invoke{X: V("box"), Name: "insert", Args: []Arg{{Label: "at", E: I(0)}, {E: V("a")}}}})
+		} else {
+			g.emit(ExprStmt{E: Invoke{X: V("box"), Name: "append", Args: []Arg{{E: V("a")}}}})
+		}
 		bRoot = place{e: Index{X: V("box"), I: I(0)}, t: T, mode: modeDirect, pure: true}
 	case "dict-insert":
 		g.emit(Let{Name: "box", T: Dict(String, T), IsVar: true, Init: DictLit{T: Dict(String, T)}})
-		g.emit(Assign{Target: Index{X: V("box"), I: S("k")}, Value: V("a")})
+		if g.draw(2, "insert-key") == 0 {
+			g.emit(ExprStmt{E: Invoke{X: V("box"), Name: "insert", Args: []Arg{{Label: "key", E: S("k")}, {E: V("a")}}}})
+		} else {
+			g.emit(Assign{Target: Index{X: V("box"), I: S("k")}, Value: V("a")})
+		}
 		bRoot = place{e: Force{X: Index{X: V("box"), I: S("k")}}, t: T, mode: modeDirect, pure: false}
 	case "closure-capture":
 		g.emit(Let{Name: "get", Init: Closure{Decl: &FuncDecl{Name: "get", Ret: T, Body: []Stmt{Return{E: V("a")}}}}})
@@ -659,9 +691,11 @@ func GenCopy(t *rapid.T) *CopyCase {
 		g.mutate(a)
 		g.mutate(a)
 		g.emit(Let{Name: "b", IsVar: true, Init: CallVal{F: V("get")}})
+		g.mutateTemp(CallVal{F: V("get")}, T)
 	case "dereference":
 		g.emit(Let{Name: "r0", Init: RefOf{X: V("a"), T: Ref(T)}})
 		g.emit(Let{Name: "b", IsVar: true, Init: Deref{X: V("r0")}})
+		g.mutateTemp(Deref{X: V("r0")}, T)
 	case "optional-unwrap":
 		g.emit(Let{Name: "o", T: Opt(T), IsVar: true, Init: V("a")})
 		g.emit(Let{Name: "b", IsVar: true, Init: Force{X: V("o")}})
@@ -671,16 +705,7 @@ func GenCopy(t *rapid.T) *CopyCase {
 		// T is [E]: each loop variable is a copy of the element; mutating it must not change a
 		el := T.Elem
 		g.emit(Let{Name: "b", T: T, IsVar: true, Init: ArrLit{T: T}})
-		var inner Stmt
-		switch el.K {
-		case KArr:
-			inner = ExprStmt{E: Invoke{X: V("e"), Name: "append", Args: []Arg{{E: call(g.elFn(el.Elem), I(555))}}}}
-		case KDict:
-			inner = ExprStmt{E: Invoke{X: V("e"), Name: "insert", Args: []Arg{{Label: "key", E: g.keyLit(el.Key, 555)}, {E: call(g.elFn(el.Elem), I(555))}}}}
-		case KComp:
-			ft := g.prog.Comp(el.Name).Fields[0].T
-			inner = ExprStmt{E: Invoke{X: V("e"), Name: "setF0", Args: []Arg{{E: call(g.elFn(ft), I(555))}}}}
-		}
+		inner := g.topMutation(V("e"), el, 555)
 		g.emit(ForIn{Name: "e", X: V("a"), Body: []Stmt{inner, ExprStmt{E: Invoke{X: V("b"), Name: "append", Args: []Arg{{E: V("e")}}}}}})
 	}
 	b.roots = []place{bRoot}
@@ -734,6 +759,7 @@ func (g *copyGen) history(T *Type, form string) *CopyCase {
 	b := &side{name: "b", roots: []place{{e: V("b"), t: T, mode: modeDirect, pure: true}}, muts: &g.info.MutB}
 	if form == "storage-copy" {
 		g.emit(Let{Name: "b", IsVar: true, Init: Force{X: StorageLoad{T: T, Path: "a", Copy: true}}})
+		g.mutateTemp(Force{X: StorageLoad{T: T, Path: "a", Copy: true}}, T)
 	} else {
 		// load removes the value; save a copy back so that both sides exist
 		g.emit(Let{Name: "b", IsVar: true, Init: Force{X: StorageLoad{T: T, Path: "a"}}})
@@ -764,6 +790,7 @@ func (g *copyGen) history(T *Type, form string) *CopyCase {
 		b.roots = []place{{e: V("sb"), t: T, mode: modeAuthRef, pure: true}}
 		b.name = "sb"
 		g.mutations(a, b, 2+g.draw(4, "mutations"))
+		g.mutateTemp(Force{X: StorageLoad{T: T, Path: "b", Copy: true}}, T)
 		end()
 	}
 
